@@ -197,7 +197,7 @@ def node_part(res):
         "bootstrap scenarios (contacts answering / silent / erroring, outages, repeated re-bootstrap attempts with back-off) and "
         "search scenarios; checker: every query datagram the real node sent in a run has an 8-byte transaction id never sent "
         "to the same address before in that run",
-        [], part="node_part")
+        [], part="node_part", socket_replay=True)
 
 
 def replay(path):
